@@ -67,10 +67,13 @@ def compare_models(m1, m2, predict):
     if j1 != j2:
         bad.append("to_json is not a fixpoint: " + _first_diff(j1, j2))
     for attr in ("warnings", "disqualification"):
-        if _names(getattr(m1, attr)) != _names(getattr(m2, attr)):
+        if not hasattr(m1, attr) and not hasattr(m2, attr):
+            continue            # the CalTRACK hourly wrapper keeps its warnings inside the stored results, compared through to_json above
+        if _names(getattr(m1, attr, [])) != _names(getattr(m2, attr, [])):
             bad.append(f"{attr} differ after reload")
-    if str(m1.baseline_timezone) != str(m2.baseline_timezone):
-        bad.append(f"baseline_timezone {m1.baseline_timezone!r} != {m2.baseline_timezone!r}")
+    tz1, tz2 = getattr(m1, "baseline_timezone", None), getattr(m2, "baseline_timezone", None)
+    if str(tz1) != str(tz2):
+        bad.append(f"baseline_timezone {tz1!r} != {tz2!r}")
     p1, p2 = predict(m1), predict(m2)
     if list(p1.columns) != list(p2.columns) or not p1.index.equals(p2.index):
         bad.append("prediction frames differ in shape")
@@ -138,6 +141,9 @@ def fitted(family, profile="current"):
     if family in ("daily", "billing"):
         sample = "il-electricity-cdd-hdd-daily" if family == "daily" else "il-electricity-cdd-hdd-billing_monthly"
         meter, temp, meta = load_sample(sample)
+        if family == "billing":
+            # the sample is stamped in UTC (reads at 06:00 = local midnight); the billing data class needs the meter's own clock
+            meter, temp = meter.tz_convert("America/Chicago"), temp.tz_convert("America/Chicago")
         bm, _ = get_baseline_data(meter, end=meta["blackout_start_date"], max_days=365)
         if family == "daily":
             data = em.DailyBaselineData.from_series(bm, temp, is_electricity_data=True)
@@ -179,7 +185,7 @@ def run(tier="quick", seed=0):
                 "real from_json(to_json()) round trips: to_json fixpoint, warnings/disqualification/timezone kept, predictions "
                 "bit-identical (402-day grid from -40F to 140F for parameter-built models; the sample's reporting period for fitted "
                 "ones). Domain: {daily, billing} x 7 shapes x {unsplit, 2-season, 6-way} x {with, without stored warnings} parameter-built "
-                "models + real fits (quick: daily current profile; thorough: + daily legacy, billing, hourly, CalTRACK hourly). "
+                "models + real fits (daily current and legacy profile, billing, hourly, hourly solar, CalTRACK hourly). "
                 "distinct = distinct (family, shape, split, warn) or (family, profile)", known_findings=load_known("C01"))
     for family in ("daily", "billing"):
         for shape in SHAPES:
@@ -189,9 +195,7 @@ def run(tier="quick", seed=0):
                         continue
                     case = {"kind": "params", "family": family, "shape": shape, "split": split, "warn": warn}
                     _one(b, case, (family, shape, split, warn))
-    fits = [("daily", "current"), ("hourly", "current"), ("hourly_solar", "current"), ("daily", "legacy")]
-    if tier == "thorough":
-        fits += [("billing", "current"), ("caltrack_hourly", "current")]
+    fits = [("daily", "current"), ("hourly", "current"), ("hourly_solar", "current"), ("daily", "legacy"), ("billing", "current"), ("caltrack_hourly", "current")]
     for family, profile in fits:
         case = {"kind": "fit", "family": family, "profile": profile}
         known = "C01-legacy-profile-reload" if (family, profile) == ("daily", "legacy") else None
